@@ -87,6 +87,12 @@ def gen_cases(tier, seed):
         shp = gen.rand_shape(rng, int(rng.integers(1, 4)), 1, 4)
         yield C(w="aggregate", shape=list(shp), red=REDS[i % len(REDS)],
                 nuniq=int(rng.integers(0, 6)), with_shape=bool(rng.integers(0, 4) != 0), mult=["any", "any", "distinct", "descending"][(i // len(REDS)) % 4])
+    # values that are not numbers / not finite: a result that is NaN or infinite is not zero and keeps its place
+    for red in ("sum", "default", "mean", "custom", "max", "min", "pick_first", "ramp"):
+        for nf in ("nan", "inf", "-inf", "inf-inf"):
+            for ws in (True, False):
+                shp = gen.rand_shape(rng, int(rng.integers(1, 4)), 2, 4)
+                yield C(w="aggregate", shape=list(shp), red=red, nuniq=int(rng.integers(1, 5)), with_shape=ws, mult="any", nonfinite=nf)
 
 
 def run_case(case, ctx):
@@ -120,12 +126,28 @@ def _w_dense(case, ctx, rng):
     elif g == "tensor.from_function":
         A = gen.normals(rng, shape)
         calls = []
+        # what the function hands back: the array itself (either memory order), or the same values as a vector / a column / an array of
+        # another shape with the same number of entries -- those are folded into the requested shape, first index fastest
+        ret = ["array", "array-C", "vector", "column", "other-shape"][gen.pick(case) % 5]
+        vec = A.reshape(-1, order="F").copy()
+        if ret == "array":
+            out = np.asfortranarray(A)
+        elif ret == "array-C":
+            out = np.ascontiguousarray(A)
+        elif ret == "vector":
+            out = vec
+        elif ret == "column":
+            out = vec.reshape(-1, 1)
+        else:
+            out = np.reshape(vec, tuple(reversed(shape)), order="F")
+        ctx.feat(returns=ret)
 
         def f(s):
             calls.append(tuple(s))
-            return A.copy()
+            return out.copy(order="K")
         T = ctx.must(g, ttb.tensor.from_function, f, shape)
-        ctx.check(tuple(T.shape) == shape and same(denote(T), A), g, "WRONG", "from_function does not hold the array the function returned")
+        ctx.check(tuple(T.shape) == shape and same(denote(T), A), g, "WRONG",
+                  lambda: f"from_function does not hold the values the function returned (returned as {ret} of shape {out.shape}): shape {T.shape}, want {shape}")
         ctx.check(calls == [shape], g, "WRONG", f"function called with {calls}, want one call with {shape}")
     else:
         R = int(rng.integers(1, 4))
@@ -294,7 +316,19 @@ def _w_aggregate(case, ctx, rng):
     if rng.random() < 0.3 and nu:
         # force an exact cancellation so that a zero result must be dropped
         vals[: mult[0]] = ([1.0, -1.0] * 3)[: mult[0]] if mult[0] % 2 == 0 else vals[: mult[0]]
+    nf = case.get("nonfinite")
+    if nf:
+        # the first subscript's values: one NaN / one infinity among them, or both infinities (their sum is NaN)
+        if nf == "inf-inf":
+            mult[0] = max(mult[0], 2)
+            subs = np.repeat(usubs, mult, axis=0)
+            vals = rng.choice([-2.0, -1.0, 1.0, 2.0, 3.0, 0.5, 0.0], size=subs.shape[0])
+            vals[0], vals[1] = np.inf, -np.inf
+        else:
+            vals[0] = {"nan": np.nan, "inf": np.inf, "-inf": -np.inf}[nf]
     p = rng.permutation(subs.shape[0])
+    if nf and case["red"] in ("pick_first", "ramp"):
+        p = np.arange(subs.shape[0])          # order-dependent reducers: the non-finite value stays first
     if case.get("mult") == "descending":
         p = np.argsort(-vals, kind="stable")  # every subscript's values are listed in descending order
     subs, vals = subs[p], vals[p]
@@ -308,13 +342,14 @@ def _w_aggregate(case, ctx, rng):
     # the string names accepted are those of numpy_groupies; callables are applied to each subscript's value list (in listed order)
     arg = {"sum": "sum", "max": "max", "min": "min", "mean": "mean", "len": len, "custom": funs["custom"], "len_name": "len", "var": "var", "std": "std",
            "prod": "prod", "first": "first", "last": "last", "pick_first": pick_first, "ends": ends, "ramp": ramp}.get(red)
-    ctx.feat(gen="from_aggregator", red=red, n_unique=("0" if nu == 0 else "1" if nu == 1 else "2+"), with_shape=case["with_shape"], mult=str(case.get("mult")))
+    ctx.feat(gen="from_aggregator", red=red, n_unique=("0" if nu == 0 else "1" if nu == 1 else "2+"), with_shape=case["with_shape"], mult=str(case.get("mult")), nonfinite=str(nf))
     if nu == 0 and not case["with_shape"]:
         return
     want = np.zeros(shape)
     for i in range(nu):
         sel = np.all(subs == usubs[i], axis=1)
-        want[tuple(usubs[i])] = funs[red](vals[sel])
+        with np.errstate(invalid="ignore"):
+            want[tuple(usubs[i])] = funs[red](vals[sel])
     args = [subs.copy(), vals.reshape(-1, 1).copy()]
     if case["with_shape"]:
         args.append(shape)
